@@ -248,6 +248,8 @@ def check_guards(ctx, rule_g="R4-guard-is-divisor", rule_u="R5-unguarded-divisor
                         else: ok_shape = False
                 outv = generic(out) if out is not None else None
                 out_ok = out is not None and to_x(outv) is not None and to_x(outv).iszero()
+                if isinstance(outv, LocalArr) and not outv.stores and to_x(outv.fill) is not None and to_x(outv.fill).iszero(): out_ok = True     # np.zeros(shape)
+                if isinstance(outv, Arr) and to_x(outv.body) is not None and to_x(outv.body).iszero(): out_ok = True
                 if not ok_shape:
                     ctx.unknown(rule_g, c, f"where= is not a conjunction of non-vanishing tests: {wherev!r}"[:200], w2)
                 elif need - tested:
